@@ -2347,6 +2347,15 @@ class Evaluator:
                 lit = self._constant_table(m, name, v)
                 if lit is not None:
                     return lit
+                if isinstance(v, ast.Call) and isinstance(v.func, ast.Name) and v.func.id in ("frozenset", "tuple") and not v.keywords and (
+                        not v.args or (len(v.args) == 1 and isinstance(v.args[0], (ast.List, ast.Tuple, ast.Set)) and not v.args[0].elts)):
+                    # NAME = frozenset() / tuple(): an immutable empty constant is its value wherever it is read
+                    try:
+                        outs_ = self.eval(v, State({}), func)
+                        if len(outs_) == 1 and not outs_[0][0].conds:
+                            return outs_[0][1]
+                    except Exception:  # noqa: BLE001
+                        pass
                 g = ("global", f"{m.name}.{name}")
                 # instance of a repo class, e.g.  P = ProbabilityBuilderType()
                 if isinstance(v, ast.Call) and isinstance(v.func, ast.Name):
